@@ -54,9 +54,11 @@ How the model reads the tables:
   (patched by TS3) with the marker (`onError`); neither consults `checker.dry`, but in dry mode
   `statusOnError` is unreachable in the model's fragment (prompt guard `!e.Dry`; `runCommand` has
   no failing `execext.RunCommand` when dry).
-* keys (fix N): checksum `stateFilename(t.Name())`, timestamp `stateFilename(t.Task)`; `stateFilename`
+* keys (fix N): timestamp `stateFilename(t.Task)`; `stateFilename`
   = `normalizeFilename` (regexp `[^A-z0-9]` → `-`) when that changes nothing, else normalised name +
-  `-` + `%016x` of `xxh3.HashString(name)` (`stateKey`).
+  `-` + `%016x` of `xxh3.HashString(name)` (`stateKey`).  Checksum (fix F8A): `checksumFilename(t)` =
+  `stateFilename(t.Task)` for a task without label, else `normalizeFilename(t.Label)` + `.` + `%016x`
+  of xxh3 of the length-prefixed pair `"%d:%s%s", len(t.Task), t.Task, t.Label` (`sumKey`, `pairEnc`).
 * `timestampIsUpToDate` (fix M): the marker is created (`!markerExists`) and moved to now only inside
   the closure `touchMarker` (the `func` entry; its body starts from an empty guard chain: nothing
   when `checker.dry`), which is called on the three exits where the task is going to run — nothing
@@ -157,9 +159,23 @@ theorem fingerOrder_checksumName_ok :
       "hashed: strings.NewReader(filepath.ToSlash(‹0›))"] := by decide
 
 theorem fingerOrder_checksumPath_ok : FingerOrder.checksumPath = [("filepath.Join", ""),
-  ("stateFilename", ""),
-  ("t.Name", ""),
-  ("return filepath.Join(checker.tempDir, \"checksum\", stateFilename(t.Name()))", "")] := by rfl
+  ("checksumFilename", ""),
+  ("return filepath.Join(checker.tempDir, \"checksum\", checksumFilename(t))", "")] := by rfl
+
+/-- `checksumFilename` (fix F8A): the checksum state belongs to the pair (task name, label) — without
+label `stateFilename(t.Task)` (the file an unlabelled task always had); with a label the normalised
+label, a `.` (which `stateFilename` never produces) and `%016x` of xxh3 of the LENGTH-PREFIXED pair
+`"%d:%s%s", len(t.Task), t.Task, t.Label` (`sumKey`, `pairEnc`; the model's tag is the hashed string
+itself: the 64-bit hash is idealised as injective).  On a tree without the fix the table is empty and
+`checksumPath` / `checksumKey` name `stateFilename(t.Name())`: three obligations break. -/
+theorem fingerOrder_checksumFilename_ok : FingerOrder.checksumFilename = [("stateFilename", "t.Label == \"\""),
+  ("return stateFilename(t.Task)", "t.Label == \"\""),
+  ("fmt.Sprintf", "!(t.Label == \"\")"),
+  ("def ‹0› := fmt.Sprintf(\"%d:%s%s\", len(t.Task), t.Task, t.Label)", "!(t.Label == \"\")"),
+  ("fmt.Sprintf", "!(t.Label == \"\")"),
+  ("normalizeFilename", "!(t.Label == \"\")"),
+  ("xxh3.HashString", "!(t.Label == \"\")"),
+  ("return fmt.Sprintf(\"%s.%016x\", normalizeFilename(t.Label), xxh3.HashString(‹0›))", "!(t.Label == \"\")")] := by rfl
 
 theorem fingerOrder_timestampIsUpToDate_ok : FingerOrder.timestampIsUpToDate = [("return false, nil", "len(t.Sources) == 0"),
   ("Globs", "!(len(t.Sources) == 0)"),
@@ -260,7 +276,7 @@ theorem fingerOrder_checksumRegexp_ok : FingerOrder.checksumRegexp = "[^A-z0-9]"
 
 theorem fingerOrder_normalizeReplacement_ok : FingerOrder.normalizeReplacement = "-" := by rfl
 
-theorem fingerOrder_checksumKey_ok : FingerOrder.checksumKey = "stateFilename(t.Name())" := by rfl
+theorem fingerOrder_checksumKey_ok : FingerOrder.checksumKey = "checksumFilename(t)" := by rfl
 
 theorem fingerOrder_checksumDir_ok : FingerOrder.checksumDir = "checksum" := by rfl
 
